@@ -333,6 +333,19 @@ impl<'a> GeneratorState<'a> {
         }
     }
 
+    // A function that only has a prototype has no entry in the variables table:
+    // it can be called, but it has no value
+    fn check_has_value(&self, name: &str, pos: usize) -> Result<(), Error> {
+        if self.compiler_state.variables.contains_key(name) {
+            Ok(())
+        } else {
+            Err(self.compiler_state.syntax_error(
+                &format!("Function {} is declared but not defined here: it can only be called", name),
+                pos,
+            ))
+        }
+    }
+
     fn generate_deref(&mut self, expr: &Expr, pos: usize) -> Result<ExprType, Error> {
         match expr {
             Expr::Identifier(var, sub) => {
@@ -341,6 +354,7 @@ impl<'a> GeneratorState<'a> {
                         .compiler_state
                         .syntax_error("Deref on something else than a pointer", pos));
                 }
+                self.check_has_value(var, pos)?;
                 let v = self.compiler_state.get_variable(var);
                 if v.var_type == VariableType::CharPtr {
                     let sub_output = self.generate_expr(sub, pos, false, false)?;
@@ -393,6 +407,7 @@ impl<'a> GeneratorState<'a> {
                         .compiler_state
                         .syntax_error("& only works on char (8 bits) variables", pos));
                 }
+                self.check_has_value(var, pos)?;
                 let v = self.compiler_state.get_variable(var);
                 if v.var_type == VariableType::Char {
                     let sub_output = self.generate_expr(sub, pos, false, false)?;
@@ -433,6 +448,7 @@ impl<'a> GeneratorState<'a> {
                 if var == "X" || var == "Y" {
                     return Ok(ExprType::Immediate(1));
                 }
+                self.check_has_value(var, pos)?;
                 let v = self.compiler_state.get_variable(var);
                 match v.var_type {
                     VariableType::CharPtr => {
@@ -722,6 +738,7 @@ impl<'a> GeneratorState<'a> {
                     }
                 }
                 variable => {
+                    self.check_has_value(variable, pos)?;
                     let v = self.compiler_state.get_variable(variable);
                     let dummy = if let Expr::Nothing = **sub {
                         None
@@ -1093,6 +1110,7 @@ impl<'a> GeneratorState<'a> {
                         .compiler_state
                         .syntax_error("Strobe only works on memory pointers", pos));
                 }
+                self.check_has_value(name, pos)?;
                 let v = self.compiler_state.get_variable(name);
                 match v.var_type {
                     VariableType::CharPtr => {
